@@ -23,6 +23,11 @@ FILTERS = [
     {"k": "tag", "ctor": "tag", "tag": list(b"Artist"), "op": list(b"=="), "v": list(b"foo bar")},
     {"k": "and", "es": [{"k": "tag", "ctor": "new", "tag": list(b"Album"), "op": list(b"contains"), "v": list(b"it's")},
                         {"k": "not", "e": {"k": "tag", "ctor": "exists", "tag": list(b"Genre"), "op": list(b"!="), "v": []}}]},
+    # a filter that was sent once (rendered / cloned) and is then negated or refined before it goes into the command
+    {"k": "not", "bang": False, "e": {"k": "tag", "ctor": "tag", "tag": list(b"Artist"), "op": list(b"=="), "v": list(b"foo"), "pre": "render"}},
+    {"k": "not", "bang": True, "e": {"k": "tag", "ctor": "new", "tag": list(b"Genre"), "op": list(b"contains"), "v": list(b"(Live)"), "pre": "clone_after"}},
+    {"k": "and", "es": [{"k": "tag", "ctor": "tag", "tag": list(b"Artist"), "op": list(b"=="), "v": list(b"foo"), "pre": "clone"},
+                        {"k": "tag", "ctor": "new", "tag": list(b"Album"), "op": list(b"!="), "v": list(b"b")}]},
 ]
 
 
